@@ -19,9 +19,15 @@ META = dict(
          "tree and that the Jacobian time derivative is consistent with recursive Newton-Euler; the exhaustive 2-body "
          "lattice and simulated <=4-body models are replayed: xpos xmat xquat xipos ximat site/geom/camera frames "
          "xanchor xaxis subtree_com, mj_jacBody/BodyCom/Site/Geom/SubtreeCom/jacSparse, mj_jacDot, mj_objectVelocity, "
-         "positions after mj_integratePos by +-1 lattice step, mj_differentiatePos.",
+         "positions after mj_integratePos by +-1 lattice step, mj_differentiatePos. Constraint rows: between the sites of "
+         "every ordered pair of bodies (world included; simple and non-simple bodies, 0 and 1 dofs) one connect and one weld "
+         "equality; efc_pos and the translational rows of efc_J must equal the published x1 - x2 and J1 - J2 (TLC: exact "
+         "central difference of the residual) with dense AND sparse Jacobian storage, and mj_jacDifPair is called directly "
+         "(white box, dense and sparse) for every ordered pair (translation and rotation differences).",
     note="Trusted: TLC, harness smooth_drv.cc, rendering of quarter turns as radians/quaternions. Not decided: general "
-         "angles, ball/free joints, several joints per body, constraint-row Jacobians (tolerance 1e-9 relative).",
+         "angles, ball/free joints, several joints per body (dof counts per body are 0 or 1), rotational rows of weld "
+         "constraints (their rotation Jacobian difference is compared through mj_jacDifPair), contact rows (tolerance 1e-9 "
+         "relative).",
     ref="DESIGN.md section 4 C06, C07, C29")
 
 SPEC = os.path.join(S.TLA, "SmoothLattice.tla")
@@ -31,7 +37,16 @@ def script_for(ev):
     sc = S.Script()
     n, nv = ev["n"], ev["nv"]
     kin = ev["kin"]
-    sc.model(S.model_lines(ev))
+    # a site on the world (site id 0) and, between the sites of every ordered pair of bodies (world included), one
+    # connect and one weld equality: their constraint rows are compared below
+    eqs = []
+    if nv:
+        for k, pr in enumerate(ev["pairs"]):
+            if not pr["mov"]:
+                continue
+            for tp, nm in ((0, "c"), (1, "w")):
+                eqs.append("equality name=%s%d type=%d objtype=6 name1=s%d name2=s%d" % (nm, k, tp, pr["b1"], pr["b2"]))
+    sc.model(S.model_lines(ev, world_site=True, extra_lines=eqs))
     sc.ok("data 0 0")
     sc.ok("free 1")
     S.sanity(sc, ev)
@@ -46,8 +61,9 @@ def script_for(ev):
     sc.vec("get 0 xipos", "xipos", S.flat([k["c"] for k in kin]), skip=3, exact=rotfree)
     sc.vec("get 0 ximat", "ximat", S.flat(R), skip=9, exact=rotfree)
     for fld in ("site", "geom", "cam"):
-        sc.vec("get 0 %s_xpos" % fld, fld + "_xpos", S.flat([k["sp"] for k in kin]), exact=rotfree)
-        sc.vec("get 0 %s_xmat" % fld, fld + "_xmat", S.flat([k["sR"] for k in kin]), exact=rotfree)
+        ws = 1 if fld == "site" else 0                      # the world site comes first
+        sc.vec("get 0 %s_xpos" % fld, fld + "_xpos", S.flat([k["sp"] for k in kin]), exact=rotfree, skip=3 * ws)
+        sc.vec("get 0 %s_xmat" % fld, fld + "_xmat", S.flat([k["sR"] for k in kin]), exact=rotfree, skip=9 * ws)
     if nv:
         sc.vec("get 0 xanchor", "xanchor", S.flat([kin[b - 1]["anc"] for b in ev["dofs"]]), exact=rotfree)
         sc.vec("get 0 xaxis", "xaxis", S.flat([kin[b - 1]["zw"] for b in ev["dofs"]]), exact=rotfree)
@@ -61,7 +77,7 @@ def script_for(ev):
         sc.vec("jac 0 body %d" % b, "jacBody", S.jac_flat(ev["jacp"][b - 1]) + jr, exact=rotfree)
         sc.vec("jacsp 0 %d" % b, "jacSparse", S.jac_flat(ev["jacp"][b - 1]) + jr, exact=rotfree)
         sc.vec("jac 0 bodycom %d" % b, "jacBodyCom", S.jac_flat(ev["jacc"][b - 1]) + jr, exact=rotfree)
-        sc.vec("jac 0 site %d" % (b - 1), "jacSite", S.jac_flat(ev["jacs"][b - 1]) + jr, exact=rotfree)
+        sc.vec("jac 0 site %d" % b, "jacSite", S.jac_flat(ev["jacs"][b - 1]) + jr, exact=rotfree)
         sc.vec("jac 0 geom %d" % (b - 1), "jacGeom", S.jac_flat(ev["jacs"][b - 1]) + jr, exact=rotfree)
         sc.vec("jac 0 subtree %d" % b, "jacSubtreeCom",
                [Fraction(x, ev["submass"][b - 1]) for x in S.jac_flat(ev["subjac"][b - 1])] + z3nv)
@@ -69,11 +85,35 @@ def script_for(ev):
             v = ev["vel"][b - 1]
             sc.vec("objvel 0 2 %d 0" % b, "objectVelocity(xbody)", S.flat(v["w"]) + S.flat(v["vo"]))
             sc.vec("objvel 0 1 %d 0" % b, "objectVelocity(body)", S.flat(v["w"]) + S.flat(v["vc"]))
-            sc.vec("objvel 0 6 %d 0" % (b - 1), "objectVelocity(site)", S.flat(v["w"]) + S.flat(v["vs"]))
+            sc.vec("objvel 0 6 %d 0" % b, "objectVelocity(site)", S.flat(v["w"]) + S.flat(v["vs"]))
             sc.vec("jacdot 0 %d %s" % (b, " ".join(S.num(x) for x in P[b - 1])), "jacDot(xpos)",
                    S.jac_flat(ev["jdp"][b - 1]) + S.jac_flat(ev["jdr"][b - 1]))
             sc.vec("jacdot 0 %d %s" % (b, " ".join(S.num(x) for x in kin[b - 1]["c"])), "jacDot(xipos)",
                    S.jac_flat(ev["jdc"][b - 1]) + S.jac_flat(ev["jdr"][b - 1]))
+    # constraint rows of the connect / weld equalities: efc_pos = x1 - x2, efc_J = J1 - J2 (dense and sparse storage),
+    # and mj_jacDifPair called directly for every ordered pair of bodies
+    if nv:
+        # (an equality with an identically zero Jacobian can be dropped by the engine: its residual is not observable)
+        wantJ, wantP, sel, e = [], [], [], 0
+        for pr in ev["pairs"]:
+            if not pr["mov"]:
+                continue
+            for _ in range(2):
+                wantJ += S.jac_flat(pr["jacp"])
+                if any(x != 0 for x in S.flat(pr["jacp"])):
+                    wantP += list(pr["pos"])
+                    sel.append(e)
+                e += 1
+        sp = [(0, 0, 0)] + [k["sp"] for k in kin]
+        for mode, name in ((0, "dense"), (1, "sparse")):
+            sc.ok("optset 0 jacobian %d" % mode)
+            sc.ok("forward 0")
+            sc.vec("eqrows 0 pos %s" % (",".join(str(x) for x in sel) or "-"), "efc_pos(connect/weld)", wantP, exact=rotfree)
+            sc.vec("eqrows 0 J", "efc_J(connect/weld):%s" % name, wantJ, exact=rotfree)
+            for pr in ev["pairs"]:
+                b1, b2 = pr["b1"], pr["b2"]
+                sc.vec("jacdif 0 %d %d %d %s %s" % (b1, b2, mode, " ".join(S.num(x) for x in sp[b1]), " ".join(S.num(x) for x in sp[b2])),
+                       "jacDifPair:%s" % name, [-x for x in S.jac_flat(pr["jacp"]) + S.jac_flat(pr["jacr"])], exact=rotfree)
     # positions after one lattice step forth / back of every coordinate (mj_integratePos), and the way back
     q0 = [ev["bodies"][b - 1]["q"] * S.unit_of(ev, i) for i, b in enumerate(ev["dofs"])]
     for d in range(nv):
@@ -86,8 +126,8 @@ def script_for(ev):
             sc.vec("get 1 xpos", tag + "xpos", S.flat([k["p"] for k in fk]), skip=3)
             sc.vec("get 1 xmat", tag + "xmat", S.flat([k["R"] for k in fk]), skip=9)
             sc.vec("get 1 xipos", tag + "xipos", S.flat([k["c"] for k in fk]), skip=3)
-            sc.vec("get 1 site_xpos", tag + "site_xpos", S.flat([k["sp"] for k in fk]))
-            sc.vec("get 1 site_xmat", tag + "site_xmat", S.flat([k["sR"] for k in fk]))
+            sc.vec("get 1 site_xpos", tag + "site_xpos", S.flat([k["sp"] for k in fk]), skip=3)
+            sc.vec("get 1 site_xmat", tag + "site_xmat", S.flat([k["sR"] for k in fk]), skip=9)
             q1 = list(q0)
             q1[d] += sgn * u
             e = [0.0] * nv
@@ -109,6 +149,12 @@ NEED = {
     "a branching tree": lambda ev: len([b for b in ev["bodies"] if b["par"] == 0]) > 1 or any(
         len([c for c in ev["bodies"] if c["par"] == k]) > 1 for k in range(1, ev["n"] + 1)),
     "a jointless body": lambda ev: any(b["jt"] == "none" for b in ev["bodies"]),
+    "two root bodies without children, frames at the origin, one static and one with a dof (MuJoCo 'simple' bodies with "
+    "different dof counts)": lambda ev: any(
+        a["par"] == 0 and b["par"] == 0 and a["jt"] == "none" and b["jt"] != "none" and
+        all(tuple(x["ipos"]) == (0, 0, 0) and tuple(x["janc"]) == (0, 0, 0) for x in (a, b)) and
+        not any(c["par"] in (i + 1, j + 1) for c in ev["bodies"])
+        for i, a in enumerate(ev["bodies"]) for j, b in enumerate(ev["bodies"]) if i != j),
 }
 
 
